@@ -691,8 +691,9 @@ def model_script(sc, t):
                 "none" if ok else str(i % 7)))
         elif ml == "write 1":
             # have_written is set once the call got past its own checks (mode, alignment, a write function exists): the call reports that by writing something
-            m = re.match(r"ret=(-?\d+)", t[i])
-            lines.append(at(i) + ("write 1" if (m and int(m.group(1)) > 0) else "write 0"))
+            # ... or by failing in the I/O layer (err=2, SFE_SYSTEM: RLIMIT_FSIZE / EBADF scenarios whose header still fitted, e.g. PVF's 15 bytes)
+            m = re.match(r"ret=(-?\d+)(?: err=(-?\d+))?", t[i])
+            lines.append(at(i) + ("write 1" if (m and (int(m.group(1)) > 0 or m.group(2) == "2")) else "write 0"))
         else:
             lines.append(at(i) + ml)
     return "\n".join(lines) + "\n"
